@@ -13,7 +13,8 @@ E1 (bounded exhaustive enumeration of inputs against the definitions in mc/ref_c
 
 For every run (A, m, n) of the first four: well-formed output; soundness on A up to n;
 completeness for every non-member up to m; irredundancy of every shaded cell; equal output for
-list / reversed list / dict / defaultdict / predicate (and n omitted where that means the same);
+the list in five orders (by length, reversed, tuple order, round robin over the lengths, first
+element moved last) / dict / defaultdict / predicate (and n omitted where that means the same);
 create_bisc_input partitions S<=U; patterns_suffice_for_good / _bad give the reference verdict up
 to U with genuine witnesses; every basis of run_clean_up hits every bad permutation it was run
 on; dict_numbs_to_patts and to_sg_format round-trip.
@@ -135,17 +136,42 @@ def show(N):
 # one run (A, m, n)
 # --------------------------------------------------------------------------------------------
 
-KINDS = ("list_rev", "dict", "defaultdict", "pred", "n_omitted")
+KINDS = ("list_rev", "list_lex", "list_round_robin", "list_first_moved_last",
+         "dict", "defaultdict", "pred", "n_omitted")
+
+
+def list_order(kind, A):
+    """Orders of the same set for the list representation.  A is sorted by (length, lex)."""
+    A = list(A)
+    if kind == "list":
+        return A
+    if kind == "list_rev":                       # longest first
+        return A[::-1]
+    if kind == "list_lex":                       # plain tuple order: lengths interleave
+        return sorted(A)
+    if kind == "list_round_robin":               # one of every length in turn
+        levels = {}
+        for p in A:
+            levels.setdefault(len(p), []).append(p)
+        out = []
+        i = 0
+        while len(out) < len(A):
+            for k in sorted(levels):
+                if i < len(levels[k]):
+                    out.append(levels[k][i])
+            i += 1
+        return out
+    if kind == "list_first_moved_last":          # grouped by length, but the first one comes last
+        return A[1:] + A[:1]
+    raise ValueError(kind)
 
 
 def call_bisc(kind, A, m, n):
     import collections
     Perm, _, B, _ = _lib()
     maxlen = max(len(p) for p in A)
-    if kind == "list":
-        arg = [Perm(p) for p in A]
-    elif kind == "list_rev":
-        arg = [Perm(p) for p in reversed(A)]
+    if kind.startswith("list"):
+        arg = [Perm(p) for p in list_order(kind, A)]
     elif kind == "dict":
         arg = {k: [Perm(p) for p in A if len(p) == k] for k in range(0, max(n, maxlen) + 1)}
     elif kind == "defaultdict":
@@ -1006,6 +1032,8 @@ def call_auto(form, members):
         arg = pred
     elif form == "list":
         arg = [Perm(t) for t in sorted(members, key=lambda t: (len(t), t))]
+    elif form == "list_lex":
+        arg = [Perm(t) for t in sorted(members)]
     elif form == "dicts":
         A, Bd = {}, {}
         for n in range(AUTO_MAXLEN + 1):
@@ -1106,7 +1134,8 @@ def auto_plan(quick):
         specs += [("av", c) for c in itertools.combinations(pool3, 2)]
     plan = [(s, "predicate") for s in specs]
     if not quick:
-        plan += [(("named", "stack_sortable"), "list"), (("named", "stack_sortable"), "dicts"),
+        plan += [(("named", "stack_sortable"), "list"), (("named", "stack_sortable"), "list_lex"),
+                 (("named", "stack_sortable"), "dicts"),
                  (("named", "simsun"), "dicts"), (("named", "west_2_stack_sortable"), "dicts")]
     return plan
 
